@@ -47,6 +47,7 @@ def parallel(config, argv_for, nproc, outprefix, timeout=3400):
             p.kill()
             raise ToolError("harness timed out")
         if p.returncode != 0 or not os.path.exists(o):
+            raise_if_code_panic(out, [os.path.basename(binp)] + [str(a) for a in argv_for(o, 0, nproc)])
             raise ToolError("harness failed (%s):\n%s" % (p.returncode, (out or "")[-2500:]))
         reps.append(json.load(open(o)))
     return reps
